@@ -90,6 +90,24 @@ def run(ctx, crate):
             early += [b.blocks[x]["tloc"]["line"] for (x, t) in extra]
         obs.append(Ob("R11.entries", fn, "the loops over patterns, files and lines run to exhaustion", not early,
                       expected="no break / early return inside the rendering loops", found=("early exit at line(s) %s" % sorted(set(early))) if early else "exhaustion only"))
+        # the findings handed in are only reordered (sort*), never shortened or merged
+        altered = []
+        for s in g.sites:
+            if not s.args:
+                continue
+            root = s.args[0]
+            t = root
+            while t[0] in ("proj", "elem", "iter") or (t[0] == "call" and t[1] in ("std::iter::Iterator::collect",) and t[2]):
+                t = t[2][0] if t[0] == "call" else t[1]
+            if t[0] != "param":
+                continue
+            nm = s.path.rsplit("::", 1)[-1]
+            if nm in ("dedup", "dedup_by", "dedup_by_key", "retain", "truncate", "pop", "remove", "swap_remove", "drain", "clear", "split_off", "insert", "push",
+                      "append", "extend", "resize"):
+                altered.append("%s at line %d" % (nm, s.line))
+        obs.append(Ob("R11.entries", fn, "the findings are rendered as handed in (only reordered)", not altered,
+                      expected="no dedup / retain / truncate on the findings", found=altered or "only sort",
+                      example="the same file name with the same lines in two directories"))
         # the list object
         inner = [s for s in g.pushes if g.in_loop(s, g.lines)]
         bufs = set(s.args[0] for s in inner)
